@@ -2,8 +2,11 @@
 package main
 
 import (
+	"bytes"
 	"encoding/json"
+	"fmt"
 	"os"
+	"os/exec"
 	"runtime/debug"
 	"sort"
 
@@ -18,6 +21,9 @@ var registry = map[string]check{}
 func main() {
 	debug.SetGCPercent(800) // enumeration produces short-lived garbage only; fewer collections, better scaling
 	c := vlib.NewCtx()
+	if os.Getenv(childEnv) != "" {
+		childMain(c.Prop)
+	}
 	f := registry[c.Prop]
 	if f == nil {
 		ids := make([]string, 0, len(registry))
@@ -78,3 +84,75 @@ func (ck *Checker[K]) Replay() bool {
 }
 
 const levelMC = "model_checking"
+
+// ---- fresh processes ----
+//
+// Some state outlives a middleware: package-level tables of the code under test. What the first (second, ...) call
+// of a process leaves behind there can only be observed by a later call of the same process, so a history that
+// starts with "the process has just started" is explored by actually starting one: the harness re-executes itself
+// (same binary, hence same build of /repo), hands the child an ordered list of cases, and the child judges them in
+// that order with the property's ordinary judge.
+
+const childEnv = "VCHECK_FRESH_PROCESS_CHILD"
+
+// childJudges: per property, decode one case and judge it.
+var childJudges = map[string]func(raw json.RawMessage) *vlib.Failure{}
+
+type childResp struct {
+	Fails map[int]string `json:"fails"`
+}
+
+func childMain(prop string) {
+	j := childJudges[prop]
+	if j == nil {
+		vlib.HarnessError("no fresh-process judge for %s", prop)
+	}
+	var cases []json.RawMessage
+	if err := json.NewDecoder(os.Stdin).Decode(&cases); err != nil {
+		vlib.HarnessError("fresh-process child: cannot decode cases: %v", err)
+	}
+	resp := childResp{Fails: map[int]string{}}
+	for i, raw := range cases {
+		if f := vlib.Guard(func() *vlib.Failure { return j(raw) }); f != nil {
+			resp.Fails[i] = f.Detail
+		}
+	}
+	out, _ := json.Marshal(resp)
+	os.Stdout.Write(append([]byte("FRESH-PROCESS-RESULT "), out...))
+	os.Exit(0)
+}
+
+// inFreshProcess judges the cases, in order, in one freshly started process and returns the failures by position.
+func inFreshProcess[K any](prop string, cases []K) map[int]string {
+	in, err := json.Marshal(cases)
+	if err != nil {
+		vlib.HarnessError("fresh process: cannot serialise cases: %v", err)
+	}
+	cmd := exec.Command(os.Args[0], "-prop", prop)
+	cmd.Env = append(os.Environ(), childEnv+"=1")
+	cmd.Stdin = bytes.NewReader(in)
+	var stderr bytes.Buffer
+	cmd.Stderr = &stderr
+	out, err := cmd.Output()
+	_, res, ok := bytes.Cut(out, []byte("FRESH-PROCESS-RESULT "))
+	if err != nil || !ok {
+		vlib.HarnessError("fresh process for %s failed: %v: %s %s", prop, err, tailBytes(out, 400), tailBytes(stderr.Bytes(), 400))
+	}
+	var resp childResp
+	if err := json.Unmarshal(res, &resp); err != nil {
+		vlib.HarnessError("fresh process for %s: cannot decode result: %v", prop, err)
+	}
+	return resp.Fails
+}
+
+func tailBytes(b []byte, n int) string {
+	if len(b) > n {
+		b = b[len(b)-n:]
+	}
+	return string(b)
+}
+
+// afterNote words the history of a fresh-process witness.
+func afterNote(n int, detail string) string {
+	return fmt.Sprintf("in a freshly started process, after %d earlier validation(s) (listed in the witness, in order): %s", n, detail)
+}
